@@ -248,6 +248,40 @@ def bank_c20():
         if calls or r["inner"] or sent[:2] in (b"20", b"59", b"40") or (sent and sent[:1].isdigit()):
             return dict(confirmed=True, input=dict(plaintext=repr(junk)), observed=dict(handler_calls=len(calls), inner_created=bool(r["inner"]), bytes_sent=repr(sent[:40])),
                         clause="bytes sent without TLS never reach a handler nor elicit a Gemini response")
+    # a peer that never gets through the handshake (silent, a few plaintext bytes, half a ClientHello) and is cut off by the
+    # handshake timer receives nothing that looks like a Gemini response
+    async def stalled(first):
+        loop = asyncio.get_running_loop()
+        timers = []
+        real = loop.call_later
+
+        def fake(delay, cb, *a):
+            h = real(3600, lambda: None)
+            timers.append((cb, h))
+            return h
+        loop.call_later = fake
+        try:
+            srv = tp.TLSServerProtocol(lambda: sp.GeminiServerProtocol(handler, None), server_context())
+            tcp = FakeTCP()
+            srv.connection_made(tcp)
+            if first:
+                try:
+                    srv.data_received(first)
+                except Exception:  # noqa: BLE001
+                    pass
+            for cb, h in list(timers):
+                if getattr(cb, "__name__", "") == "_handle_handshake_timeout" and not h.cancelled():
+                    cb()
+            return b"".join(tcp.chunks), tcp.closed
+        finally:
+            loop.call_later = real
+            for _, h in timers:
+                h.cancel()
+    for first in (b"", b"gem", b"\x16\x03\x01\x00"):
+        sent, closed = asyncio.run(stalled(first))
+        if sent[:1].isdigit() or b"\r\n" in sent:
+            return dict(confirmed=True, input=dict(peer_sent=repr(first), event="handshake timer fires"), observed=dict(bytes_in_the_clear=repr(sent[:60]), tcp_closed=closed),
+                        clause="a peer that has not established TLS never elicits a Gemini response")
     # handshakes below TLS 1.2 are refused
     for name, ver in (("TLSv1", SSL.TLS1_VERSION), ("TLSv1.1", SSL.TLS1_1_VERSION)):
         try:
